@@ -684,6 +684,46 @@ fn main_check(ctx: &Ctx) -> Outcome {
         out.push_part(json!({"system":"console: sequences containing a code the statement leaves out (5, 6, 22-29, 59)","sequences":cases.len()}));
     }
 
+    // every kind of non-SGR sequence inside styled text (every OSC number, every CSI / ESC final byte, DCS/SOS/PM/APC)
+    {
+        let cases = vchecks::wincon_sys::non_sgr_cases();
+        let bad = std::sync::Mutex::new(Vec::<Finding>::new());
+        cases.par_iter().for_each(|c| {
+            let r = guard(|| {
+                let sh = Rc::new(RefCell::new(Shared::default()));
+                let mut stream = WinconStream::new(Console(sh.clone()));
+                stream.write_all(c).map_err(|e| format!("write_all failed on a console that accepts everything: {e}"))?;
+                let exp = expected_cells(&mut RunModel::default(), c);
+                let shb = sh.borrow();
+                if let Some(b) = shb.bad_byte {
+                    return Err(format!("control byte 0x{b:02x} was passed to the console as text"));
+                }
+                if shb.cells != exp {
+                    return Err(format!("console colours differ: write_all({}) -> console got {:?}, expected {:?}", show(c), summarize(&shb.cells), summarize(&exp)));
+                }
+                Ok(())
+            })
+            .and_then(|r| r);
+            if let Err(m) = r {
+                let mut v = bad.lock().unwrap();
+                if v.len() < 40 {
+                    v.push(Finding {
+                        system: "anstream::WinconStream/non-SGR-sequences".into(),
+                        clause: clause_of(&m),
+                        case: vec![show(c)],
+                        message: m,
+                        replay: json!({"kind":"sweep","chunk":hex(c)}),
+                    });
+                }
+            }
+        });
+        let mut b = bad.into_inner().unwrap();
+        b.sort_by_key(|f| (f.case[0].len(), f.key()));
+        b.truncate(10);
+        out.findings.extend(b);
+        out.push_part(json!({"system":"console: every OSC number 0..=255, every CSI final byte, every ESC final byte, DCS/SOS/PM/APC inside styled text","sequences":cases.len()}));
+    }
+
     // every chunk of <= 2 bytes over ALL 256 byte values, written after each of ~100 prefixes (default / styled state,
     // then one class byte: the parser in every kind of state): the console must receive the model's cells
     {
